@@ -56,6 +56,7 @@ def run(ctx):
     ctx.anchor(ctx.fn1('Oomd::Config2::compileDropIn'), 'target', 'compiled_drop', 'ret', 'root', 'dropin')
     ctx.anchor(ctx.fn1('Oomd::DropInServiceAdaptor::updateDropIns'), 'unit', 'tag')
     P = ctx.prog
+    ruleset_wiring(ctx, "C13", ['disable_on_drop_in', 'detectorgroups_dropin_enabled', 'actiongroup_dropin_enabled'])
     # ------------------------------------------------ addDropInRuleset
     adr = ctx.fn1("Oomd::Engine::Engine::addDropInRuleset")
     ef = [i for i in adr.calls("emplace_front") if "dropins" in adr.text(adr.nodes[i].get("recv", -1))]
